@@ -36,8 +36,13 @@ def appendix() -> str:
 
 def seeded() -> str:
     rows = []
+    summ = json.loads((V / "seeded" / "summary.json").read_text()) if (V / "seeded" / "summary.json").exists() else {}
     for f in sorted(glob.glob(str(V / "seeded" / "*" / "meta.json"))):
         m = json.loads(Path(f).read_text())
+        if m["id"] in summ:
+            m["breaks"], m["needs"] = summ[m["id"]]["breaks"], summ[m["id"]]["needs"]
+        else:
+            m["breaks"], m["needs"] = m.get("breaks", "")[:160], m.get("needs", "")[:120]
         rows.append(m)
     if not rows:
         return "(no seeded change has been evaluated yet)"
